@@ -3,6 +3,7 @@
 import asyncio
 from asyncio import Task
 from collections.abc import Callable
+import inspect
 import logging
 import traceback
 from typing import ClassVar
@@ -474,7 +475,21 @@ class Function:
     @classmethod
     def create_task(cls, coro, ast_ctx=None):
         """Create a new task that runs a coroutine."""
-        return cls.hass.loop.create_task(cls.run_coro(coro, ast_ctx=ast_ctx))
+        task = cls.hass.loop.create_task(cls.run_coro(coro, ast_ctx=ast_ctx))
+        #
+        # it is one of our tasks from now on, not just once it first runs, so it can be
+        # canceled (task.cancel, task.unique) right after it is created
+        #
+        cls.our_tasks.add(task)
+
+        def task_done(task):
+            cls.our_tasks.discard(task)
+            if inspect.getcoroutinestate(coro) == inspect.CORO_CREATED:
+                # canceled before it ever started
+                coro.close()
+
+        task.add_done_callback(task_done)
+        return task
 
     @classmethod
     def service_register(
